@@ -67,7 +67,7 @@ type JBody struct {
 func genJournalHistory(r *core.Rand, maxOps int) JBody {
 	var b JBody
 	b.Cfg.BuffSize = uint32([]int{4 << 10, 16 << 10, 64 << 10, 256 << 10}[r.Intn(4)])
-	b.Cfg.SyncThreshold = uint64([]int{2 << 10, 8 << 10, 32 << 10, 64 << 20}[r.Intn(4)])
+	b.Cfg.SyncThreshold = uint64([]int{256, 1 << 10, 2 << 10, 8 << 10, 32 << 10, 64 << 20}[r.Intn(6)])
 	b.Cfg.MaxNovel = []int{2, 3, 5, 8, 20, 50}[r.Intn(6)]
 	b.Cfg.MemTable = uint64([]int{1 << 10, 4 << 10, 64 << 10, 1 << 20}[r.Intn(4)])
 	maxChunk := int(b.Cfg.BuffSize) / 3
@@ -139,6 +139,20 @@ func genJournalHistory(r *core.Rand, maxOps int) JBody {
 			durable = append(append(durable, pending...), root)
 			pending = nil
 			b.Ops = append(b.Ops, JOp{Kind: "put", C: []int{root}}, JOp{Kind: "commit", Root: root})
+			if r.Chance(1, 4) {
+				// immediately followed by a root-only commit back to an older stored chunk
+				root2 := durable[r.Intn(len(durable))]
+				lastRoot = root2
+				b.Ops = append(b.Ops, JOp{Kind: "commit", Root: root2})
+			}
+		case x < 88:
+			// root-only commit: move the root to a chunk that is already stored, with nothing
+			// else to write (the journal receives a lone root record)
+			if len(durable) > 0 && len(pending) == 0 {
+				root := durable[r.Intn(len(durable))]
+				lastRoot = root
+				b.Ops = append(b.Ops, JOp{Kind: "commit", Root: root})
+			}
 		case x < 92:
 			pending = nil
 			b.Ops = append(b.Ops, JOp{Kind: "reopen"})
@@ -278,6 +292,9 @@ func runJournalHistory(ctx context.Context, sos *simos.OS, b *JBody, res *core.R
 				res.Probe("close_error:" + firstLine(err))
 			}
 			st = nil
+			if onClose != nil {
+				onClose(dir)
+			}
 			st, err = openJournal(ctx, dir, b.Cfg.MemTable, &warn)
 			if err != nil {
 				return nil, fmt.Errorf("reopen: %w", err)
@@ -291,6 +308,9 @@ func runJournalHistory(ctx context.Context, sos *simos.OS, b *JBody, res *core.R
 	if err != nil {
 		res.Probe("close_error")
 		res.Probe("close_error:" + firstLine(err))
+	}
+	if onClose != nil {
+		onClose(dir)
 	}
 	if warn > 0 {
 		res.ProbeN("journal_warnings_during_history", warn)
